@@ -28,28 +28,8 @@ func runC08(c *Ctx) {
 	c.rule("R08.5", "parallel slices of the forwarder use one removal scheme")
 	c.rule("R08.6", "a channel-id response sets up its sink once (entry removed after delivery)")
 
-	// the buffering goroutine and its parent sink constructor
-	var buf *ssa.Function
-	for _, fn := range p.Funcs {
-		if pkgOf(fn) != p.Root.Pkg {
-			continue
-		}
-		sel, lst := false, false
-		allInstrs(fn, func(in ssa.Instruction) {
-			if ci, ok := in.(*ssa.Call); ok {
-				n := calleeName(ci)
-				if n == "reflect.Select" {
-					sel = true
-				}
-				if len(n) > 22 && n[:22] == "(*container/list.List)" {
-					lst = true
-				}
-			}
-		})
-		if sel && lst {
-			buf = fn
-		}
-	}
+	// the buffering goroutine (entry function; rules look at its whole region)
+	buf := c.bufferingGoroutine()
 	// ---- R08.1
 	if c.need("R08.1", "client buffering goroutine", buf != nil) {
 		isClose := func(in ssa.Instruction) bool {
@@ -61,21 +41,26 @@ func runC08(c *Ctx) {
 			return ok && calleeName(ci) == "reflect.Select"
 		}
 		n := 0
+		inBuf := map[*ssa.Function]bool{}
+		for _, g := range c.bufFuncs() {
+			inBuf[g] = true
+		}
 		for _, fn := range p.Funcs {
 			if pkgOf(fn) != p.Root.Pkg {
 				continue
 			}
+			fn := fn
 			allInstrs(fn, func(in ssa.Instruction) {
 				if !isClose(in) {
 					return
 				}
 				n++
 				construct := fmt.Sprintf("%s: close of the caller's channel", fname(fn))
-				if fn != buf {
+				if !inBuf[fn] {
 					c.bad("R08.1", construct, c.ipos(in), "the caller's channel is closed outside the buffering goroutine, which may still be sending on it or close it again")
 					return
 				}
-				if wv := reachFrom(in, func(x ssa.Instruction) bool { return isSelect(x) || isClose(x) }, nil); wv != nil {
+				if wv := reachFromUp(in, func(x ssa.Instruction) bool { return isSelect(x) || isClose(x) }, nil); wv != nil {
 					c.bad("R08.1", construct, c.ipos(wv), fmt.Sprintf("after the close at %s the goroutine carries on (missing return): it closes the channel again or sends on the closed channel, which panics", c.ipos(in)))
 					return
 				}
@@ -226,7 +211,7 @@ func runC08(c *Ctx) {
 		construct := fmt.Sprintf("%s: subscription context is always selected on", fname(buf))
 		// a SelectCase literal built from reflect.ValueOf(ctx.Done())
 		hasCtx := false
-		allInstrs(buf, func(in ssa.Instruction) {
+		c.bufInstrs(func(in ssa.Instruction) {
 			if ci, ok := in.(*ssa.Call); ok && calleeName(ci) == "reflect.ValueOf" {
 				if call, ok := stripConv(ci.Common().Args[0]).(*ssa.Call); ok && call.Common().IsInvoke() && call.Common().Method.Name() == "Done" {
 					hasCtx = true
@@ -235,10 +220,11 @@ func runC08(c *Ctx) {
 		})
 		c.check(hasCtx, "R08.4", construct, p.pos(buf.Pos()), "ctx.Done() is one of the cases", "the buffering goroutine does not watch the subscription context: cancelling the subscription never closes the caller's channel")
 		// sink: ctx.Err() != nil -> return before sending
-		par := buf.Parent()
-		if par != nil {
+		{
 			found := false
-			for _, sib := range withAnon(par) {
+			var where *ssa.Function
+			for _, sib := range c.sinkFuncs() {
+				where = sib
 				allInstrs(sib, func(in ssa.Instruction) {
 					done, _, ok := ctxCheck(in)
 					if !ok {
@@ -259,7 +245,12 @@ func runC08(c *Ctx) {
 					}
 				})
 			}
-			c.check(found, "R08.4", fmt.Sprintf("%s: sink drops values once the context is done", fname(par)), p.pos(par.Pos()), "context checked before the hand-over", "values can still be handed over after the subscription's context is done")
+			pos := "-"
+			name := "sink"
+			if where != nil {
+				pos, name = p.pos(where.Pos()), fname(where)
+			}
+			c.check(found, "R08.4", fmt.Sprintf("%s: sink drops values once the context is done", name), pos, "context checked before the hand-over", "values can still be handed over after the subscription's context is done")
 		}
 	}
 
@@ -375,15 +366,15 @@ func (c *Ctx) removalClosesRule(rule string) {
 // recycled target keeps what the previous value left behind (omitted struct fields, map entries, slice
 // backing arrays), so the caller receives data the handler never sent.
 func (c *Ctx) freshStreamValue(rule string) {
-	p := c.P
-	buf := c.bufferingGoroutine()
-	if buf == nil || buf.Parent() == nil {
-		c.und(rule, "sink of a client channel", "-", "buffering goroutine not resolved")
+	sinks := c.sinkFuncs()
+	if len(sinks) == 0 {
+		c.und(rule, "sink of a client channel", "-", "no function handing values into an intake channel found")
 		return
 	}
 	n := 0
-	for _, sib := range withAnon(buf.Parent()) {
-		allInstrs(sib, func(in ssa.Instruction) {
+	for _, sib := range sinks {
+		sib := sib
+		c.P.coneInstrs(sib, func(in ssa.Instruction) {
 			ci, ok := in.(ssa.CallInstruction)
 			if !ok {
 				return
@@ -397,15 +388,15 @@ func (c *Ctx) freshStreamValue(rule string) {
 				return
 			}
 			n++
-			construct := fmt.Sprintf("%s: decode target of a streamed value", fname(sib))
+			construct := fmt.Sprintf("%s: decode target of a streamed value", fname(in.Parent()))
 			good := c.allOrigins(ic.Common().Args[0], func(a apath) bool {
 				call, ok := a.Root.(*ssa.Call)
-				return ok && len(a.Fields) == 0 && calleeName(call) == "reflect.New" && call.Parent() == sib && !inLoop(call.Block())
+				return ok && len(a.Fields) == 0 && calleeName(call) == "reflect.New" && c.P.inCone(sib, call) && !inLoop(call.Block())
 			})
 			c.check(good, rule, construct, c.ipos(in), "reflect.New made for this value", "a streamed value is decoded into memory that is not allocated for it (a recycled target keeps fields, map entries or backing arrays of earlier values): the caller receives data the handler never sent")
 		})
 	}
 	if n == 0 {
-		c.und(rule, "decode of streamed values", p.pos(buf.Parent().Pos()), "no JSON decode into a reflect value found in the sink")
+		c.und(rule, "decode of streamed values", "-", "no JSON decode into a reflect value found in the sink")
 	}
 }
